@@ -171,4 +171,213 @@ def CsiVal.WF (v : CsiVal) : Prop :=
 def encodeCsi (v : CsiVal) : List Nat :=
   0x1B :: 0x5B :: (v.priv.toList ++ (encParams v.params ++ (v.inters ++ [v.final])))
 
+/-! ### ESC with an exit function pending; CAN/SUB -/
+
+/-- ESC inside a control string: the exit function runs first. -/
+theorem pstep_esc_exit (s : PState) (f : ExitFn) (he : s.exit = some f) :
+    pstep s (.rune 0x1B) =
+      ⟨{ (runExitFn s f).1 with state := .escape, inter := [], params := [], exit := none }, (runExitFn s f).2, false⟩ := by
+  have hrow : handAnywhere.row (.rune 0x1B) = ([.runExitIfSet, .clear, .startTimer], .st .escape) := by decide
+  have hpre : handAnywhere.pre.contains Act.deferClearIgnoreST = false := by decide
+  show step handTable s (.rune 0x1B) = _
+  unfold step
+  simp only [handTable, runFn, hrow, hpre, runActs, applyAct, he]
+  cases f <;> rfl
+
+/-! ### escape sequences -/
+
+theorem escape_inter (s : PState) (hs : s.state = .escape) (r : Nat) (h1 : 0x20 ≤ r) (h2 : r ≤ 0x2F) :
+    pstep s (.rune r) = ⟨{ s with state := .escapeIntermediate, inter := s.inter ++ [r], ignoreST := false }, [], false⟩ := by
+  have hrow : (handFn .escape).row (.rune r) = ([.deferClearIgnoreST, .collect], .st .escapeIntermediate) :=
+    row_class _ 0x20 0x2F r _ (by decide) (by decide) h1 h2
+  rw [pstep_plain s r (by omega) (by omega) (by omega), hs, hrow]
+  simp [runActs, applyAct, finish, handFn]
+
+theorem escInt_inter (s : PState) (hs : s.state = .escapeIntermediate) (r : Nat) (h1 : 0x20 ≤ r) (h2 : r ≤ 0x2F) :
+    pstep s (.rune r) = ⟨{ s with inter := s.inter ++ [r] }, [], false⟩ := by
+  have hrow : (handFn .escapeIntermediate).row (.rune r) = ([.collect], .st .escapeIntermediate) :=
+    row_class _ 0x20 0x2F r _ (by decide) (by decide) h1 h2
+  rw [pstep_plain s r (by omega) (by omega) (by omega), hs, hrow]
+  simp [runActs, applyAct, finish, handFn, hs]
+
+theorem escInt_final (s : PState) (hs : s.state = .escapeIntermediate) (r : Nat) (h1 : 0x30 ≤ r) (h2 : r ≤ 0x7E) :
+    pstep s (.rune r) = ⟨{ s with state := .ground, inter := [] }, [.esc s.inter r], false⟩ := by
+  have hrow : (handFn .escapeIntermediate).row (.rune r) = ([.escapeDispatch], .st .ground) :=
+    row_class _ 0x30 0x7E r _ (by decide) (by decide) h1 h2
+  rw [pstep_plain s r (by omega) (by omega) (by omega), hs, hrow]
+  simp [runActs, applyAct, finish, handFn]
+
+/-- The finals that `escape` dispatches directly (everything in 30–7F except the introducers
+    O P X [ \ ] ^ _). -/
+def EscFinal (r : Nat) : Prop :=
+  (0x30 ≤ r ∧ r ≤ 0x4E) ∨ (0x51 ≤ r ∧ r ≤ 0x57) ∨ r = 0x59 ∨ r = 0x5A ∨ (0x60 ≤ r ∧ r ≤ 0x7F)
+
+theorem escape_final (s : PState) (hs : s.state = .escape) (r : Nat) (hr : EscFinal r) :
+    pstep s (.rune r) = ⟨{ s with state := .ground, inter := [], ignoreST := false }, [.esc s.inter r], false⟩ := by
+  have hrow : (handFn .escape).row (.rune r) = ([.deferClearIgnoreST, .escapeDispatch], .st .ground) := by
+    rcases hr with ⟨h1, h2⟩ | ⟨h1, h2⟩ | h | h | ⟨h1, h2⟩
+    · exact row_class _ 0x30 0x4E r _ (by decide) (by decide) h1 h2
+    · exact row_class _ 0x51 0x57 r _ (by decide) (by decide) h1 h2
+    · subst h; decide
+    · subst h; decide
+    · exact row_class _ 0x60 0x7F r _ (by decide) (by decide) h1 h2
+  have hne : r ≠ 0x18 ∧ r ≠ 0x1A ∧ r ≠ 0x1B := by
+    rcases hr with ⟨h1, h2⟩ | ⟨h1, h2⟩ | h | h | ⟨h1, h2⟩ <;> omega
+  rw [pstep_plain s r hne.1 hne.2.1 hne.2.2, hs, hrow]
+  simp [runActs, applyAct, finish, handFn]
+
+/-- `ESC \` when no control string was open: an ordinary escape sequence (Alt+\). -/
+theorem escape_backslash (s : PState) (hs : s.state = .escape) (hi : s.ignoreST = false) :
+    pstep s (.rune 0x5C) = ⟨{ s with state := .ground, inter := [] }, [.esc s.inter 0x5C], false⟩ := by
+  have hrow : (handFn .escape).row (.rune 0x5C) =
+      ([.deferClearIgnoreST, .retIfIgnoreST (.st .ground), .escapeDispatch], .st .ground) := by decide
+  rw [pstep_plain s _ (by decide) (by decide) (by decide), hs, hrow]
+  simp [runActs, applyAct, finish, handFn, hi]
+
+/-- `ESC \` as the terminator of a control string: nothing is delivered. -/
+theorem escape_st (s : PState) (hs : s.state = .escape) (hi : s.ignoreST = true) :
+    pstep s (.rune 0x5C) = ⟨{ s with state := .ground, ignoreST := false }, [], false⟩ := by
+  have hrow : (handFn .escape).row (.rune 0x5C) =
+      ([.deferClearIgnoreST, .retIfIgnoreST (.st .ground), .escapeDispatch], .st .ground) := by decide
+  rw [pstep_plain s _ (by decide) (by decide) (by decide), hs, hrow]
+  simp [runActs, applyAct, finish, handFn, hi]
+
+theorem run_escInters (w : List Nat) (hw : ∀ b ∈ w, 0x20 ≤ b ∧ b ≤ 0x2F) (s : PState) (hs : s.state = .escapeIntermediate) :
+    run s w = ({ s with inter := s.inter ++ w }, []) := by
+  induction w generalizing s with
+  | nil => simp [run]
+  | cons b w ih =>
+    have hb := hw b (by simp)
+    simp only [run, escInt_inter s hs b hb.1 hb.2]
+    rw [ih (fun b' hb' => hw b' (by simp [hb'])) _ (by exact hs)]
+    simp
+
+/-! ### SS3 -/
+
+theorem escape_ss3 (s : PState) (hs : s.state = .escape) :
+    pstep s (.rune 0x4F) = ⟨{ s with state := .ss3, ignoreST := false }, [], false⟩ := by
+  have hrow : (handFn .escape).row (.rune 0x4F) = ([.deferClearIgnoreST], .st .ss3) := by decide
+  rw [pstep_plain s _ (by decide) (by decide) (by decide), hs, hrow]
+  simp [runActs, applyAct, finish, handFn]
+
+theorem ss3_final (s : PState) (hs : s.state = .ss3) (r : Nat) (h1 : 0x20 ≤ r) (h2 : r ≠ 0x7F) :
+    pstep s (.rune r) = ⟨{ s with state := .ground }, [.ss3 r], false⟩ := by
+  have hrow : (handFn .ss3).row (.rune r) = ([.emitSS3], .st .ground) := by
+    by_cases h : r ≤ 0x7E
+    · exact row_class _ 0x20 0x7E r _ (by decide) (by decide) h1 h
+    · exact row_class_above _ 0x80 r _ (by decide) (by decide) (by omega)
+  rw [pstep_plain s r (by omega) (by omega) (by omega), hs, hrow]
+  simp [runActs, applyAct, finish, handFn]
+
+/-! ### OSC -/
+
+theorem escape_osc (s : PState) (hs : s.state = .escape) :
+    pstep s (.rune 0x5D) = ⟨{ s with state := .oscString, exit := some .oscEnd, ignoreST := false }, [], false⟩ := by
+  have hrow : (handFn .escape).row (.rune 0x5D) = ([.deferClearIgnoreST, .oscStart], .st .oscString) := by decide
+  rw [pstep_plain s _ (by decide) (by decide) (by decide), hs, hrow]
+  simp [runActs, applyAct, finish, handFn]
+
+theorem osc_put (s : PState) (hs : s.state = .oscString) (r : Nat) (h1 : 0x20 ≤ r) :
+    pstep s (.rune r) = ⟨{ s with osc := s.osc ++ [r], ignoreST := true }, [], false⟩ := by
+  have hrow : (handFn .oscString).row (.rune r) = ([.setIgnoreST, .oscPut], .st .oscString) := by
+    by_cases h : r ≤ 0x7F
+    · exact row_class _ 0x20 0x7F r _ (by decide) (by decide) h1 h
+    · exact row_class_above _ 0x80 r _ (by decide) (by decide) (by omega)
+  rw [pstep_plain s r (by omega) (by omega) (by omega), hs, hrow]
+  simp [runActs, applyAct, finish, handFn, hs]
+
+theorem osc_bel (s : PState) (hs : s.state = .oscString) (he : s.exit = some .oscEnd) :
+    pstep s (.rune 0x07) = ⟨{ s with state := .ground, exit := none, osc := [], ignoreST := false }, [.osc s.osc], false⟩ := by
+  have hrow : (handFn .oscString).row (.rune 0x07) =
+      ([.setIgnoreST, .runExit, .clearExit, .clearIgnoreST], .st .ground) := by decide
+  rw [pstep_plain s _ (by decide) (by decide) (by decide), hs, hrow]
+  simp [runActs, applyAct, finish, handFn, he, runExitFn]
+
+theorem run_osc (w : List Nat) (hw : ∀ b ∈ w, 0x20 ≤ b) (s : PState) (hs : s.state = .oscString) :
+    run s w = ({ s with osc := s.osc ++ w, ignoreST := if w.isEmpty then s.ignoreST else true }, []) := by
+  induction w generalizing s with
+  | nil => simp [run]
+  | cons b w ih =>
+    have hb := hw b (by simp)
+    simp only [run, osc_put s hs b hb]
+    rw [ih (fun b' hb' => hw b' (by simp [hb'])) _ (by exact hs)]
+    cases w <;> simp
+
+/-! ### APC -/
+
+theorem escape_apc (s : PState) (hs : s.state = .escape) :
+    pstep s (.rune 0x5F) = ⟨{ s with state := .apc, exit := some .apcUnhook, ignoreST := false }, [], false⟩ := by
+  have hrow : (handFn .escape).row (.rune 0x5F) = ([.deferClearIgnoreST, .setExitApc], .st .apc) := by decide
+  rw [pstep_plain s _ (by decide) (by decide) (by decide), hs, hrow]
+  simp [runActs, applyAct, finish, handFn]
+
+theorem apc_put (s : PState) (hs : s.state = .apc) (r : Nat) (h1 : 0x20 ≤ r) :
+    pstep s (.rune r) = ⟨{ s with apc := s.apc ++ [r], ignoreST := true }, [], false⟩ := by
+  have hrow : (handFn .apc).row (.rune r) = ([.setIgnoreST, .apcPut], .st .apc) :=
+    row_class_above _ 0x20 r _ (by decide) (by decide) h1
+  rw [pstep_plain s r (by omega) (by omega) (by omega), hs, hrow]
+  simp [runActs, applyAct, finish, handFn, hs]
+
+theorem run_apc (w : List Nat) (hw : ∀ b ∈ w, 0x20 ≤ b) (s : PState) (hs : s.state = .apc) :
+    run s w = ({ s with apc := s.apc ++ w, ignoreST := if w.isEmpty then s.ignoreST else true }, []) := by
+  induction w generalizing s with
+  | nil => simp [run]
+  | cons b w ih =>
+    have hb := hw b (by simp)
+    simp only [run, apc_put s hs b hb]
+    rw [ih (fun b' hb' => hw b' (by simp [hb'])) _ (by exact hs)]
+    cases w <;> simp
+
+/-! ### ground, ignore states -/
+
+theorem ground_print (s : PState) (hs : s.state = .ground) (r : Nat) (h1 : 0x20 ≤ r) :
+    pstep s (.rune r) = ⟨s, [.print r], false⟩ := by
+  have hrow : (handFn .ground).row (.rune r) = ([.print], .st .ground) :=
+    row_class_above _ 0x20 r _ (by decide) (by decide) h1
+  rw [pstep_plain s r (by omega) (by omega) (by omega), hs, hrow]
+  simp [runActs, applyAct, finish, handFn, ← hs]
+
+theorem run_ground_text (w : List Nat) (hw : ∀ b ∈ w, 0x20 ≤ b) (s : PState) (hs : s.state = .ground) :
+    run s w = (s, w.map .print) := by
+  induction w with
+  | nil => simp [run]
+  | cons b w ih =>
+    simp only [run, ground_print s hs b (hw b (by simp)), ih (fun b' hb' => hw b' (by simp [hb']))]
+    simp
+
+/-- Every row of a state function satisfies `P` if the rows for the runes 0…256 do. -/
+theorem row_forall (f : StateFn) (P : List Act × Next → Prop)
+    (hb : clearAbove f.bounds 256 = true) (h : ∀ c ∈ List.range 257, P (f.row (.rune c))) (c : Nat) :
+    P (f.row (.rune c)) := by
+  by_cases hc : c ≤ 256
+  · exact h c (List.mem_range.mpr (by omega))
+  · rw [StateFn.row_const_above f 256 c hb (by omega)]
+    exact h 256 (List.mem_range.mpr (by omega))
+
+/-- Statement lists made of `execute` and flag writes only emit C0 items (and return normally). -/
+theorem runActs_quiet (acts : List Act) (hq : ∀ a ∈ acts, a = .execute ∨ a = .setIgnoreST) (r : Nat)
+    (s : PState) (out : List Seq) (n : Next) (ho : ∀ x ∈ out, ∃ c, x = Seq.c0 c) :
+    (∀ x ∈ (runActs acts (.rune r) s out n).2.1, ∃ c, x = Seq.c0 c) ∧
+    (runActs acts (.rune r) s out n).2.2 = n := by
+  induction acts generalizing s out with
+  | nil => exact ⟨by simpa [runActs] using ho, rfl⟩
+  | cons a rest ih =>
+    rcases hq a (by simp) with h | h <;> subst h
+    · simp only [runActs]
+      apply ih (fun a' ha' => hq a' (by simp [ha']))
+      intro x hx
+      simp only [applyAct, List.mem_append] at hx
+      rcases hx with hx | hx
+      · exact ho x hx
+      · split at hx <;> simp at hx
+        exact ⟨r, hx⟩
+    · simp only [runActs]
+      apply ih (fun a' ha' => hq a' (by simp [ha']))
+      intro x hx
+      simp only [applyAct, List.append_nil] at hx
+      exact ho x hx
+
+def quietRow (row : List Act × Next) : Bool :=
+  (row.1.all fun a => a == .execute || a == .setIgnoreST) && row.2 != .dispatch
+
 end VaxisModel.Lemmas.Parser
